@@ -271,6 +271,10 @@ class Check:
         """coq/Extract/<extract_v> writes <name>_model.ml(i) into build/ocaml/<name>; links with driver."""
         d = os.path.join(BUILD, "ocaml", name)
         os.makedirs(d, exist_ok=True)
+        with Lock("ocaml-" + name):
+            return self._extract_locked(name, extract_v, driver_ml, timeout, explorer, d)
+
+    def _extract_locked(self, name, extract_v, driver_ml, timeout, explorer, d):
         with Lock("coq"):
             self.coq_project()
             # models the extraction file depends on
@@ -300,20 +304,22 @@ class Check:
             (open(os.path.join(VERIF, "ocaml", "explore.ml")).read() + "\n" if explorer else "") +
             open(os.path.join(VERIF, "ocaml", driver_ml)).read())
         exe = os.path.join(d, name + "_driver")
+        tmp_exe = exe + ".tmp%d" % os.getpid()
         srcs = []
         for ml in mls:
             mli = ml + "i"
             if os.path.exists(mli):
                 srcs.append(os.path.basename(mli))
             srcs.append(os.path.basename(ml))
-        rc, out, err = sh(["ocamlfind", "ocamlopt", "-O3", "-w", "-a", "-o", exe] + srcs + [driver_ml],
+        rc, out, err = sh(["ocamlfind", "ocamlopt", "-O3", "-w", "-a", "-o", tmp_exe] + srcs + [driver_ml],
                           cwd=d, timeout=timeout)
         if rc != 0:
-            rc, out, err = sh(["ocamlfind", "ocamlopt", "-w", "-a", "-o", exe] + srcs + [driver_ml],
+            rc, out, err = sh(["ocamlfind", "ocamlopt", "-w", "-a", "-o", tmp_exe] + srcs + [driver_ml],
                               cwd=d, timeout=timeout)
         if rc != 0:
             self.broke("harness", "ocaml build " + driver_ml, out[-1500:] + err[-1500:])
             return None
+        os.replace(tmp_exe, exe)      # atomic: a concurrent check still running the old binary is not disturbed
         return exe
 
     # -------------------------------------------------------------------- c++
@@ -402,12 +408,14 @@ class Check:
         d = os.path.join(BUILD, "bin")
         os.makedirs(d, exist_ok=True)
         exe = os.path.join(d, name)
+        tmp_exe = exe + ".tmp%d" % os.getpid()
         cmd = [CXX] + CXXFLAGS + ["-I" + os.path.join(VERIF, "harness")] + list(flags) + list(sources) + list(objs) + \
-              ["-o", exe] + list(ldflags) + LDFLAGS
+              ["-o", tmp_exe] + list(ldflags) + LDFLAGS
         rc, out, err = sh(cmd, timeout=timeout)
         if rc != 0:
             self.broke("harness", "compile " + name, err[-3000:])
             return None
+        os.replace(tmp_exe, exe)
         return exe
 
     # ------------------------------------------------------ weak-memory search
